@@ -149,6 +149,20 @@ def run(ctx):
                     if info2['iterations'] != len(info2['residual_norms']): viol('C13:rsp:compute:info', 'iterations != len(residual_norms)', inp)
                     if (s2.block_size, s2.column_solver) != (bs, cs): viol('C13:rsp:compute:configuration', 'compute() changed the configuration of the solver object', inp, (s2.block_size, s2.column_solver))
                     ctx.count(('rsp-compute', m, n, seed, cs, bs), True)
+        # the deterministic core of the decrease (thm/RSPmono.v): with the QR micro-solver the distance to the pseudoinverse never increases from one
+        # iteration budget to the next, for every seed (same seed = same sketches: the run with budget k + 1 extends the run with budget k)
+        if m > n or True:
+            Pn = pinv(An)
+            for seed in list(seeds)[:2]:
+                for bs in sorted({1, min(2, n)}):
+                    errs = []
+                    for kb in range(0, 7):
+                        try: Xk, _ik = solver.RandomizedSketchProjectPseudoinverse(block_size=bs, max_iter=kb, tol=1e-300, seed=seed, column_solver='qr', test_sketch_size=8).compute_column_variant(An)
+                        except Exception as e: viol('C13:rsp:monotone:raises', f'RSP raised {e!r} for budget {kb}', {'shape': [m, n], 'seed': seed, 'block_size': bs}); break
+                        errs.append(fro(Xk - Pn))
+                    if any(errs[i + 1] > errs[i] * (1 + 1e-9) + 1e-12 for i in range(len(errs) - 1)):
+                        viol('C13:rsp:error-monotone', 'the distance to the pseudoinverse increases from one projection step to the next (QR micro-solver)', {'shape': [m, n], 'seed': seed, 'block_size': bs}, errs)
+                    ctx.count(('rsp-monotone', m, n, seed, bs), len(errs) >= 3)
         # monitoring sketch of the same width as the iteration block (and narrower than n): the test sketch must stay independent of the iterates
         for seed in seeds:
             for cs in ('qr', 'spd'):
@@ -204,6 +218,25 @@ def run(ctx):
                 if abs(last - info['residual_norms'][-1]) > 1e-9 * max(1, last): viol('C13:rsp-row:history', 'last row-variant proxy is not the proxy of the returned X', inp)
             if info['converged'] and tr > 100 * 1e-6: viol('C13:rsp-row:flag-multiple', f'row variant reports converged with ||AX - I||/sqrt(m) = {tr:.3e} > 100 tol', inp, tr)
             ctx.count(('rsp-row', m, n, seed), True)
+    # wide input through compute() with FEWER test columns than rows: the monitor must still see every column of A X - I (a Gaussian probe does, a
+    # coordinate probe does not).  Block matrices diag(A1, A2) whose slowly converging part (two nearly parallel rows) sits in the LAST rows
+    for (m1, n1) in ((3, 6), (4, 8)) if ctx.quick() else ((3, 6), (4, 8), (6, 12), (8, 16)):
+        rsb = np.random.RandomState(1000 + m1)
+        A1 = quaternion.as_quat_array(rsb.randn(m1, n1, 4)); A2 = quaternion.as_quat_array(np.array([[[1, 0, 0, 0], [1, 0, 0, 0], [0, 1, 0, 0], [0, 0, 1, 0]], [[1, 0, 0, 0], [1.3, 0, 0, 0], [0, 1, 0, 0], [0, 0, 0.6, 0.2]]], dtype=float))
+        m, n = m1 + 2, n1 + 4; Ab = np.zeros((m, n), dtype=np.quaternion); Ab[:m1, :n1] = A1; Ab[m1:, n1:] = A2
+        svb = np.linalg.svd(utils.real_expand(Ab), compute_uv=False); condb = float(svb[0] / svb[4 * m - 1])
+        if condb > 1e3: ctx.cov['discarded'] += 1; continue
+        Pb = pinv(Ab)
+        for tss in sorted({2, m - 2}):
+            for seed in list(seeds)[:3]:
+                inp = {'solver': 'RSP compute() on wide input', 'shape': [m, n], 'test_sketch_size': tss, 'seed': seed, 'cond': condb}
+                try: Xb, ib = solver.RandomizedSketchProjectPseudoinverse(block_size=2, max_iter=3000, tol=1e-6, seed=seed, test_sketch_size=tss).compute(Ab)
+                except Exception as e: viol('C13:rsp-row:narrow-probe:raises', f'RSP raised {e!r}', inp); continue
+                if not cm.all_finite(Xb): continue
+                trb = fro(utils.quat_matmat(Ab, Xb) - utils.quat_eye(m)) / math.sqrt(m)
+                if ib['converged'] and trb > 100 * 1e-6: viol('C13:rsp-row:narrow-probe:flag-multiple', f'row variant with {tss} test columns (< {m} rows) reports converged with ||AX - I||/sqrt(m) = {trb:.3e} > 100 tol', inp, trb)
+                if ib['converged'] and fro(Xb - Pb) > 1e-2 * fro(Pb): viol('C13:rsp-row:narrow-probe:pinv', 'converged row-variant result is far from the pseudoinverse', inp, fro(Xb - Pb) / fro(Pb))
+                ctx.count(('rsp-row-narrow', m, n, tss, seed), True)
     res = cm.run_cases(ctx, 'cases_cgne', HEADER, cterms, 'check_cgne', shard=2, timeout=900)
     if res is not None:
         ctx.cov['traces_validated_against_impl'] += len(res)
